@@ -8,10 +8,10 @@ mkdir -p /tmp/mutval
 git -C /repo worktree add -q --detach $WT HEAD || exit 3
 cd $WT
 res=""
-PYTHONPATH=$WT MPLBACKEND=Agg timeout 600 /venv/bin/python $D/demo.py >/tmp/mutval/clean.log 2>&1; c=$?
+PYTHONPATH=$WT MPLBACKEND=Agg timeout 600 /venv/bin/python $D/demo.py >/tmp/mutval/clean_$$.log 2>&1; c=$?
 git apply $D/patch.diff || { echo "PATCH-DOES-NOT-APPLY"; git -C /repo worktree remove --force $WT; exit 3; }
-PYTHONPATH=$WT MPLBACKEND=Agg timeout 600 /venv/bin/python $D/demo.py >/tmp/mutval/mut.log 2>&1; m=$?
-PYTHONPATH=$WT /venv/bin/python -m pytest -q -p no:cacheprovider --timeout=900 -W ignore --junitxml=/tmp/mutval/j_$$.xml >/tmp/mutval/t.log 2>&1
+PYTHONPATH=$WT MPLBACKEND=Agg timeout 600 /venv/bin/python $D/demo.py >/tmp/mutval/mut_$$.log 2>&1; m=$?
+PYTHONPATH=$WT /venv/bin/python -m pytest -q -p no:cacheprovider --timeout=900 -W ignore --junitxml=/tmp/mutval/j_$$.xml >/tmp/mutval/t_$$.log 2>&1
 t=$(/venv/bin/python - <<PY
 import json, xml.etree.ElementTree as ET
 b=json.load(open('/root/.vp/BASELINE.json'))
